@@ -24,7 +24,9 @@
 (*        finite period; "sat": the ideal exceeds the 32-bit increment      *)
 (*        register (saturates); "huge": in between (only big is known)      *)
 (*  {"op":"sp","kind":"num"|"nonfinite","neg":b,"lo":n,"hi":n}  set_phase:  *)
-(*        lo/hi = floor/ceil of (2^AccBits - 1 as f32) * frac(|p|)          *)
+(*        lo = floor((2^AccBits - 1) * frac(|p|)), hi = ceil(2^AccBits *    *)
+(*        frac(|p|)): the counter may be scaled by its largest value (as    *)
+(*        built) or by its range                                            *)
 (*  {"op":"panic","during":s}                                               *)
 (* Real increments are 32-bit; the specification keeps the representative   *)
 (* il + (big ? 2^AccBits : 0), which MC_PhaseAcc!Lemma_rep shows to behave  *)
@@ -46,7 +48,8 @@ Advance(tags) ==
 Pow2(n) == 2 ^ n
 \* rounding of the counter to the 24-bit significand of an f32
 RampTol     == IF AccBits <= 24 THEN 0 ELSE Pow2(AccBits - 25)
-SetPhaseTol == IF AccBits <= 24 THEN 0 ELSE Pow2(AccBits - 24)
+\* C11 positions the phase within 2^-22 of a cycle (the f32 rounding of the product, 2^(AccBits-24), is smaller)
+SetPhaseTol == IF AccBits <= 22 THEN 0 ELSE Pow2(AccBits - 22)
 
 \* the read-out must describe the specification's state after the step
 ReadTags(what) ==
